@@ -211,6 +211,8 @@ def obj_ics(obj, uid):
                 lines.append("RECURRENCE-ID:202003%02dT100000Z" % (7 + nev))
         if comp["summary"]:
             lines.append("SUMMARY:" + TEXT.get(comp["summary"], comp["summary"]))
+        if comp["summary"] == "RECURRING" and comp["kind"] == "VEVENT" and nev == 1:
+            lines.append("RRULE:FREQ=WEEKLY;COUNT=4")
         if comp["att"] == "plain":
             lines.append("ATTENDEE:mailto:a@example.com")
         elif comp["att"] == "accepted":
@@ -262,6 +264,13 @@ def run_filter_cases(table, frontend="wsgi"):
                 r = w.request("PUT", "/user/calendars/f/" + name, [("Content-Type", "text/calendar")],
                               obj_ics(t["obj"], "obj-%d" % (len(objs) - 1)))
                 assert r.status in range(200, 300), (r.status, r.body[:300])
+        # a client asks for the expanded form of everything in March 2020 (a read: it must not
+        # change what later queries answer)
+        exp = ('<?xml version="1.0"?><C:calendar-query %s><D:prop><D:getetag/><C:calendar-data>'
+               '<C:expand start="20200301T000000Z" end="20200401T000000Z"/></C:calendar-data></D:prop>'
+               '<C:filter><C:comp-filter name="VCALENDAR"><C:comp-filter name="VEVENT"/></C:comp-filter></C:filter>'
+               '</C:calendar-query>' % NS).encode("utf-8")
+        w.request("REPORT", "/user/calendars/f/", [("Content-Type", "text/xml"), ("Depth", "1")], exp)
         cache = {}
         out = []
         for t in table:
